@@ -146,7 +146,9 @@ impl TryFrom<&AST> for GenericFunctionArg {
                                     }
                                     Node::Int { .. } => Name::from(clss::python::INT_PRIMITIVE),
                                     Node::Real { .. } => Name::from(clss::python::FLOAT_PRIMITIVE),
-                                    Node::ENum { num, .. } if num.contains('.') => {
+                                    Node::ENum { num, exp }
+                                        if num.contains('.') || exp.starts_with('-') =>
+                                    {
                                         Name::from(clss::python::FLOAT_PRIMITIVE)
                                     }
                                     Node::ENum { .. } => Name::from(clss::python::INT_PRIMITIVE),
